@@ -611,6 +611,102 @@ def _explicit_next(d):
     return {"value": d["value"], "next": _explicit_next(d.get("next"))}
 
 
+def multi_predicate_case(ctx: Ctx, rng):
+    """provider factories bound to SEVERAL predicates at once (enum_by_name(A, B, C), flag_by_member_names(F, G)) in front of the
+    builtin recipe: every request for any of the listed types - in any order, loader and dumper, after unrelated and failing
+    requests, through extend() / replace() clones sharing the provider objects - is served by that first matching provider"""
+    import enum
+    from dataclasses import dataclass as dc
+    from typing import Callable
+
+    from adaptix import Retort, enum_by_name, flag_by_member_names
+
+    class E1(enum.Enum):
+        X = 1
+        Y = 2
+
+    class E2(enum.Enum):
+        X = 10
+
+    class E3(enum.IntEnum):
+        X = 5
+
+    class F1(enum.Flag):
+        P = 1
+        Q = 2
+
+    class F2(enum.Flag):
+        P = 4
+
+    @dc
+    class Holder:
+        n: int
+        a: E1
+        b: E2
+    listed = rng.sample([E1, E2, E3], rng.randint(2, 3))
+    flags = [F1, F2]
+    retort = Retort(recipe=[enum_by_name(*listed), flag_by_member_names(*flags)])
+    views = [retort]
+    ops = []
+    for _ in range(rng.randint(3, 9)):
+        kind = rng.choice(["load", "dump", "dump", "load", "int", "fail", "holder", "clone"])
+        if kind == "clone":
+            views.append(rng.choice(views).extend(recipe=[]) if rng.random() < 0.5 else rng.choice(views).replace(strict_coercion=True))
+            ops.append(["clone"])
+            continue
+        ops.append([kind, rng.choice(listed + flags).__name__, rng.randrange(len(views))])
+    case = {"suite": "multi-predicate", "listed": [c.__name__ for c in listed], "ops": ops}
+    ctx.note_case(case, nontrivial=True, kind=f"multi-predicate:{len(listed)}-enums")
+    by_name = {c.__name__: c for c in [E1, E2, E3, F1, F2]}
+    vi = 0
+    views2 = [retort]
+    for k, op in enumerate(ops):
+        if op[0] == "clone":
+            vi += 1
+            continue
+        kind, cname, v = op
+        r = views[min(v, len(views) - 1)]
+        cls = by_name[cname]
+        try:
+            if kind == "int":
+                r.load(5, int)
+                continue
+            if kind == "fail":
+                try:
+                    r.get_loader(Callable[[int], int])
+                except Exception:  # noqa: BLE001
+                    pass
+                continue
+            if kind == "holder":
+                if E1 in listed and E2 in listed:
+                    got = r.dump(Holder(n=1, a=E1.Y, b=E2.X))
+                    want = {"n": 1, "a": "Y", "b": "X"}
+                    if got != want:
+                        ctx.fail("multi-predicate:first-match", f"op #{k} dump(Holder) gives {got}, the first matching provider "
+                                 f"(enum_by_name) gives {want}; ops {ops[:k + 1]}", case)
+                        return
+                continue
+            member = list(cls)[0]
+            if issubclass(cls, enum.Flag):
+                want_dump, want_load = [member.name], member
+            else:
+                want_dump, want_load = member.name, member
+            if kind == "dump":
+                got = r.dump(member, cls)
+                ok = got == want_dump
+            else:
+                got = r.load(want_dump, cls)
+                ok = got is want_load
+            if not ok:
+                ctx.fail("multi-predicate:first-match", f"op #{k} {kind} {cname} is not served by the first matching provider "
+                         f"(by name): got {got!r}; ops {ops[:k + 1]}", case)
+                return
+        except Exception as e:  # noqa: BLE001
+            ctx.fail("multi-predicate:first-match", f"op #{k} {kind} {cname} raised {type(e).__name__} although the first matching "
+                     f"provider (by name) serves it; ops {ops[:k + 1]}", case)
+            return
+
+
 def conversion_facade_case(ctx: Ctx, rng):
     """first-match order through the conversion facade: recipe of the retort, `extend(recipe=...)` (prepends) and the per-call
     `recipe=` of get_converter / convert (prepends to everything), requested in any order on one retort"""
@@ -693,6 +789,8 @@ def run(ctx: Ctx):
         recursive_chain_case(ctx, real, ctx.rng)
     for _ in range(ctx.budget(200, 3000)):
         conversion_facade_case(ctx, ctx.rng)
+    for _ in range(ctx.budget(120, 2000)):
+        multi_predicate_case(ctx, ctx.rng)
     ctx.extra["exhaustive"] = False
     ctx.extra["exhaustive_part"] = f"router items/walk: all checker lists of length <= {5 if thorough else 4} over 5 checkers x 12 requests"
 
@@ -713,6 +811,9 @@ def search(ctx: Ctx):
     if not ctx.failures:
         for _ in range(1500):
             conversion_facade_case(ctx, ctx.rng)
+    if not ctx.failures:
+        for _ in range(1000):
+            multi_predicate_case(ctx, ctx.rng)
 
 
 def replay(ctx: Ctx, case) -> bool:
